@@ -408,6 +408,7 @@ pub fn run(ctx: &Ctx) -> &'static str {
         |_| check_backlog,
     );
     if ctx.tier == crate::rt::Tier::Thorough {
+        crate::props::e2e::run(ctx, crate::props::e2e::Phase::Relay, 2);
         crate::fuzzrun::campaign(ctx, "c09_uplink", 300);
     }
     "exploration"
